@@ -27,7 +27,7 @@ Proof. unfold opt_section, opt_kid. destruct (has_kids t); cbn; [now rewrite app
 Definition content_tree (d : odfdoc) : node :=
   Elem (q_office "document-content") version_att
     (opt_kid (d_scripts d) ++ opt_kid (d_ffd d) ++
-     [Elem q_autostyles [] (used_auto_styles refattrs [d_styles d; d_auto d; d_body d] (d_auto d)); d_body d]).
+     [Elem q_autostyles [] (used_auto_styles refattrs [d_styles d; d_body d] (d_auto d)); d_body d]).
 
 (* stylesxml always writes <office:automatic-styles> ... </office:automatic-styles>, also around nothing:
    that is an element with one empty text child *)
@@ -44,7 +44,7 @@ Definition settings_tree (d : odfdoc) : node := Elem (q_office "document-setting
 Theorem contentxml_is_tree d : contentxml filtered refattrs prologue env d = prologue ++ toXml true (content_tree d).
 Proof.
   unfold contentxml, content_tree. f_equal.
-  set (used := used_auto_styles refattrs [d_styles d; d_auto d; d_body d] (d_auto d)).
+  set (used := used_auto_styles refattrs [d_styles d; d_body d] (d_auto d)).
   set (K := opt_kid (d_scripts d) ++ opt_kid (d_ffd d) ++ [Elem q_autostyles [] used; d_body d]).
   assert (HK : K <> []) by (unfold K; destruct (opt_kid (d_scripts d)); [destruct (opt_kid (d_ffd d)); discriminate|discriminate]).
   rewrite <- (wrapper_eq true (q_office "document-content") version_att K HK).
